@@ -51,9 +51,14 @@ def odesc(o):
     return (name, int(o.state_index), int(o.color.value), odesc(o.content) if isinstance(o, Box) else None)
 
 
+EXTRA_TYPES = {}  # type name -> constructor(colour) for harness-defined registered subclasses
+
+
 def mk(d):
     """build a fresh grid object from a descriptor"""
     t, s, c, content = d
+    if t in EXTRA_TYPES:
+        return EXTRA_TYPES[t](COLORS[c])
     if t == 'Floor':
         return Floor()
     if t == 'Wall':
